@@ -298,6 +298,198 @@ theorem wait_status (p : Proc) (k k' : WaitAns) (s : Int) (h : (wait p k).2.1 = 
 /-- the first wait of a fresh handle performs exactly one wait4 and returns the kernel's status -/
 theorem wait_first (pid : Nat) (s : Int) : wait ⟨pid, none⟩ (.exited s) = (⟨pid, some s⟩, .ok s, 1) := rfl
 
+/-! ## (iii) the Command as a reusable builder -/
+
+/-- `spawn(&mut self)` leaves the Command exactly as it found it — whatever the outcome (Ok, a caller-side
+    failure before or after the fork, any child-side failure): streams, cwd, uid, gid, pgroup, closures, argv and
+    environment are all still there for the next spawn. -/
+theorem spawn_preserves_config (fixed : Bool) (b : Builder) (pf : PFault) (cf : CFault) :
+    (spawnB fixed b pf cf).1 = b := rfl
+
+/-- no RawFd stream.  The model has no descriptor table: a `Stdio::RawFd` is closed in the caller by the first
+    spawn that gets past `setup_io` (known finding C12 `spawn_rawfd_late`), so a later spawn of the same Command
+    refers to a descriptor that is gone; that class is excluded from the respawn theorems. -/
+def NoRaw (b : Builder) : Prop := Stdio.rawFd ∉ stdioOf b
+
+instance (b : Builder) : Decidable (NoRaw b) := by unfold NoRaw; exact inferInstance
+
+theorem closuresRunUpTo_all : ∀ (l : List CStep) (k : Nat), l.length ≤ k → closuresRunUpTo l k = (l.map isClosure).sum := by
+  intro l
+  induction l with
+  | nil => intro k _; rfl
+  | cons s r ih =>
+    intro k hk
+    cases k with
+    | zero => simp at hk
+    | succ k =>
+      simp only [closuresRunUpTo, List.map_cons, List.sum_cons]
+      rw [ih k (by simpa using hk)]
+
+theorem closureSteps_length : ∀ (n i : Nat), (closureSteps i n).length = n := by
+  intro n
+  induction n with
+  | zero => intro i; rfl
+  | succ n ih => intro i; simp [closureSteps, ih]
+
+theorem closureSteps_sum : ∀ (n i : Nat), ((closureSteps i n).map isClosure).sum = n := by
+  intro n
+  induction n with
+  | zero => intro i; rfl
+  | succ n ih => intro i; simp [closureSteps, isClosure, ih]; omega
+
+theorem dup2_sum (l : List Nat) : ((l.map CStep.dup2).map isClosure).sum = 0 := by
+  induction l with
+  | nil => rfl
+  | cons a r ih => simpa [isClosure] using ih
+
+/-- a child that meets no failure calls every registered closure, once -/
+theorem closuresRun_clean (c : Config) : closuresRun (childSteps c) none = c.closures := by
+  unfold closuresRun
+  rw [closuresRunUpTo_all _ _ (Nat.le_refl _)]
+  unfold childSteps
+  simp only [List.map_append, List.sum_append, closureSteps_sum, dup2_sum]
+  cases c.cwd <;> cases c.uid <;> cases c.gid <;> cases c.pgroup <;> simp [isClosure]
+
+/-- one spawn that meets no failure: Ok, the child is the configured image with the configured streams, the
+    caller is handed exactly the MakePipe ends, every closure ran -/
+theorem spawnB_clean (b : Builder) :
+    (spawnB true b PFault.none none).2 =
+      ⟨⟨.ok, some .execd⟩, some (imageOf b), some (pipesOf b), b.closures⟩ := by
+  have h : spawn true (configOf b) PFault.none none = ⟨.ok, some .execd⟩ := rfl
+  simp only [spawnB, h]
+  simp [closuresRun_clean, configOf]
+
+/-- every round of interleaved builder calls and spawns on one Command is the spawn of the builder state the
+    CALLS alone produce, under that round's own faults: no earlier spawn — successful or failed — has any
+    influence on it -/
+theorem respawn_round_depends_only_on_calls_and_own_faults (fixed start : Bool) :
+    ∀ (stages : List Stage) (b : Builder), runStages fixed start b stages =
+      (buildersOf fixed start b (stages.map (·.ops))).map fun bs =>
+        List.zipWith (fun b s => (spawnB fixed b s.pf s.cf).2) bs stages := by
+  intro stages
+  induction stages with
+  | nil => intro b; rfl
+  | cons s r ih =>
+    intro b
+    simp only [runStages, buildersOf, List.map_cons]
+    cases h : applyAllB fixed start b s.ops with
+    | none => rfl
+    | some b1 =>
+      simp only [Option.bind_some, spawn_preserves_config, ih b1]
+      cases buildersOf fixed start b1 (r.map (·.ops)) with
+      | none => rfl
+      | some bs => simp
+
+/-- any number of spawns from one configuration, each under its own faults: every round behaves as a first
+    spawn of that configuration would -/
+theorem respawn_rounds (start : Bool) (b : Builder) (fs : List (PFault × CFault)) :
+    runStages true start b (fs.map fun f => ⟨[], f.1, f.2⟩) = some (fs.map fun f => (spawnB true b f.1 f.2).2) := by
+  induction fs with
+  | nil => rfl
+  | cons f r ih => simp [runStages, applyAllB, spawn_preserves_config, ih]
+
+/-- n spawns from one configuration give n children with the same image and the same streams, and the caller
+    is handed the same pipe ends each time -/
+theorem respawn_same_child (start : Bool) (b : Builder) (_h : NoRaw b) (n : Nat) :
+    runStages true start b (List.replicate n ⟨[], PFault.none, none⟩) =
+      some (List.replicate n ⟨⟨.ok, some .execd⟩, some (imageOf b), some (pipesOf b), b.closures⟩) := by
+  have := respawn_rounds start b (List.replicate n (PFault.none, none))
+  simpa [spawnB_clean] using this
+
+/-- a spawn that failed (anywhere, on either side of the fork) followed by one that meets no failure: the second
+    is Ok and its child is the configured one -/
+theorem respawn_after_failed_spawn (start : Bool) (b : Builder) (_h : NoRaw b) (pf : PFault) (cf : CFault) :
+    runStages true start b [⟨[], pf, cf⟩, ⟨[], PFault.none, none⟩] =
+      some [(spawnB true b pf cf).2, ⟨⟨.ok, some .execd⟩, some (imageOf b), some (pipesOf b), b.closures⟩] := by
+  have := respawn_rounds start b [(pf, cf), (PFault.none, none)]
+  simpa [spawnB_clean] using this
+
+/-- builder calls between spawns: the arg/args/env/envs calls act on bin/args/argv/env exactly as `applyAll` -/
+def cmdOps : List BOp → List Op
+  | [] => []
+  | .cmd o :: r => o :: cmdOps r
+  | _ :: r => cmdOps r
+
+theorem applyAllB_cmd (fixed start : Bool) : ∀ (ops : List BOp) (b : Builder),
+    (applyAllB fixed start b ops).map (·.cmd) = applyAll fixed start b.cmd (cmdOps ops) := by
+  intro ops
+  induction ops with
+  | nil => intro b; rfl
+  | cons o r ih =>
+    intro b
+    cases o with
+    | cmd o =>
+      simp only [applyAllB, applyB, cmdOps, applyAll]
+      cases apply fixed start b.cmd o with
+      | none => rfl
+      | some c => simpa using ih { b with cmd := c }
+    | stdin s => simpa [applyAllB, applyB, cmdOps] using ih { b with stdin := some s }
+    | stdout s => simpa [applyAllB, applyB, cmdOps] using ih { b with stdout := some s }
+    | stderr s => simpa [applyAllB, applyB, cmdOps] using ih { b with stderr := some s }
+    | cwd => simpa [applyAllB, applyB, cmdOps] using ih { b with cwd := true }
+    | uid => simpa [applyAllB, applyB, cmdOps] using ih { b with uid := true }
+    | gid => simpa [applyAllB, applyB, cmdOps] using ih { b with gid := true }
+    | pgroup => simpa [applyAllB, applyB, cmdOps] using ih { b with pgroup := true }
+    | preExec => simpa [applyAllB, applyB, cmdOps] using ih { b with closures := b.closures + 1 }
+
+theorem applyAllB_append (fixed start : Bool) : ∀ (o1 o2 : List BOp) (b : Builder),
+    applyAllB fixed start b (o1 ++ o2) = (applyAllB fixed start b o1).bind (applyAllB fixed start · o2) := by
+  intro o1
+  induction o1 with
+  | nil => intro o2 b; rfl
+  | cons o r ih =>
+    intro o2 b
+    simp only [List.cons_append, applyAllB]
+    cases applyB fixed start b o with
+    | none => rfl
+    | some b1 => simpa using ih o2 b1
+
+theorem cmdOps_append (o1 o2 : List BOp) : cmdOps (o1 ++ o2) = cmdOps o1 ++ cmdOps o2 := by
+  induction o1 with
+  | nil => rfl
+  | cons o r ih => cases o <;> simp [cmdOps, ih]
+
+theorem applyAllB_total (start : Bool) : ∀ (ops : List BOp) (b : Builder), WF b.cmd → Reach start b.cmd →
+    ∃ b', applyAllB true start b ops = some b' ∧ WF b'.cmd ∧ Reach start b'.cmd := by
+  intro ops b w r
+  obtain ⟨c, e, w', r', _⟩ := applyAll_inv start (cmdOps ops) b.cmd w r
+  have h := applyAllB_cmd true start ops b
+  rw [e] at h
+  cases hb : applyAllB true start b ops with
+  | none => rw [hb] at h; simp at h
+  | some b' =>
+    rw [hb] at h
+    simp at h
+    exact ⟨b', rfl, h ▸ w', h ▸ r'⟩
+
+/-- Builder calls and spawns interleaved in any way on `Command::new(bin)`: no builder call panics, and the
+    Command a round spawns from is the one all builder calls made SO FAR produce (spawns in between leave no
+    trace): its argv is the pointers of bin and of every argument requested so far, in order, then NULL, and
+    its envp likewise (`argv_envp_wellformed` for the concatenated calls). -/
+theorem respawn_interleaved (start : Bool) (bin : Nat) :
+    ∀ (opss : List (List BOp)) (pre : List BOp) (b : Builder),
+      applyAllB true start (newB start bin) pre = some b → WF b.cmd → Reach start b.cmd →
+      ∃ bs, buildersOf true start b opss = some bs ∧ bs.length = opss.length ∧
+        ∀ k (hk : k < bs.length),
+          applyAllB true start (newB start bin) (pre ++ (opss.take (k + 1)).flatten) = some bs[k] := by
+  intro opss
+  induction opss with
+  | nil => intro pre b _ _ _; exact ⟨[], rfl, rfl, by intro k hk; simp at hk⟩
+  | cons ops r ih =>
+    intro pre b hb w rc
+    obtain ⟨b1, e1, w1, r1⟩ := applyAllB_total start ops b w rc
+    have hpre : applyAllB true start (newB start bin) (pre ++ ops) = some b1 := by
+      rw [applyAllB_append, hb]; simpa using e1
+    obtain ⟨bs, e2, l2, g2⟩ := ih (pre ++ ops) b1 hpre w1 r1
+    refine ⟨b1 :: bs, by simp [buildersOf, e1, e2], by simp [l2], ?_⟩
+    intro k hk
+    cases k with
+    | zero => simpa using hpre
+    | succ k =>
+      have hk' : k < bs.length := by simpa using hk
+      have := g2 k hk'
+      simpa [List.append_assoc] using this
+
 /-! ## non-vacuity -/
 
 example : (childSteps ⟨[0, 2], true, true, false, true, 2⟩) =
@@ -311,6 +503,22 @@ example : (applyAll true false (new false 7) [.arg 1, .envs [4, 5], .args [2, 3]
     some ⟨[7, 1, 2, 3], [8, 2, 3, 4, 0], .provided [4, 5, 6] [5, 6, 7, 0]⟩ := by decide
 example : (applyAll true true (new true 7) [.arg 1]).map (·.env) = some .inherit := by decide
 
+
+/-- respawn: one Command (stdin Null, stdout MakePipe, one closure) spawned three times; the second spawn's child
+    fails at its second dup2 (EBADF); before the third an argument is added and stderr set to Null -/
+example : runStages true false (newB false 7)
+    [⟨[.stdin .null, .stdout .makePipe, .preExec], PFault.none, none⟩, ⟨[], PFault.none, some (1, some 9)⟩,
+     ⟨[.cmd (.arg 1), .stderr .null], PFault.none, none⟩] =
+    some [⟨⟨.ok, some .execd⟩, some ⟨[8, 0], some [0], [.null, .makePipe, .inherit], false, false, false, false, 1⟩, some [false, true, false], 1⟩,
+          ⟨⟨.err (some 9) true, some (.reported 9)⟩, none, none, 0⟩,
+          ⟨⟨.ok, some .execd⟩, some ⟨[8, 2, 0], some [0], [.null, .makePipe, .null], false, false, false, false, 1⟩, some [false, true, false], 1⟩] := by
+  decide
+/-- the hypothesis of the respawn theorems holds for a non-trivial Command -/
+example : NoRaw ⟨new false 7, some .null, some .makePipe, none, true, false, false, true, 2⟩ := by decide
+/-- and fails for a RawFd stream: that class is excluded, not silently covered -/
+example : ¬ NoRaw ⟨new false 7, none, some .rawFd, none, false, false, false, false, 0⟩ := by decide
+/-- a closure that fails has been called; the ones after it have not -/
+example : closuresRun (childSteps ⟨[1], true, false, false, false, 3⟩) (some (3, some 5)) = 2 := by decide
 
 /-- a poll (`try_wait`) that finds the child still running leaves the handle exactly as it was — nothing is cached —
 so a later `wait` still reaps the child and reports its real status -/
